@@ -26,6 +26,7 @@ published one-step algorithm off the surface (< 1e-6 m within 100 km, < 2 mm up 
 1e-8 m against its own exact-arithmetic result) and all floating-point error.
 -/
 import Midgard.Proofs.GeoReal
+import Midgard.Proofs.SourceTie
 import Midgard.Model.Geodetic
 import Midgard.Model.Rotation
 import Midgard.Generated.Ellipsoids
@@ -368,6 +369,64 @@ theorem ell_flow_midgard (ops : List Op) (p : PosTag) :
 
 end Flow
 
+
+/-! ### The model is the source (regenerated on every run)
+
+`Generated/SourceExprs.lean` is written by `translator/extract_exprs.py` from the Python `ast` of the tree under
+test: the arithmetic of the functions named below, statement by statement.  The theorems of this section say that the
+hand-written model definitions every other theorem of this file is about are, over the reals, *equal* to those
+regenerated definitions (composed with the hand-modelled branch selection where the source has control flow).  A
+change of the source arithmetic therefore breaks one of these (unless it is an algebraic identity over ℝ, which the
+fallback of the `src_tie` tactic — unfold, compare component by component with `ring_nf` — accepts). -/
+section Source
+open Midgard.Generated
+set_option linter.unusedTactic false
+set_option linter.unreachableTactic false
+set_option linter.unusedSimpArgs false
+set_option linter.unnecessarySeqFocus false
+
+theorem source_ellipsoid_parameters (E : Ellipsoid ℝ) :
+    Src.ellBsrc E.a E.f = E.b ∧ Src.ellE2src E.a E.b = E.e2 ∧ Src.ellEpsSrc E.e2 = E.eps := by
+  refine ⟨?_, ?_, ?_⟩ <;> src_tie [Src.ellBsrc, Src.ellE2src, Src.ellEpsSrc, Ellipsoid.b, Ellipsoid.e2, Ellipsoid.eps]
+theorem source_llh2trs (E : Ellipsoid ℝ) (cl sl co so h : ℝ) :
+    llh2trsCS E cl sl co so h =
+      (let t := Src.llh2trsSrc E.a E.f cl sl co so h; (⟨t.1, t.2.1, t.2.2⟩ : V3 ℝ)) := by
+  src_tie [Src.llh2trsSrc, llh2trsCS]
+theorem source_trs2llh (E : Ellipsoid ℝ) (v : V3 ℝ) :
+    trs2llh E v =
+      (let p2 := Src.p2Src v.x v.y
+       let absz := absOf v.z
+       let lh : ℝ × ℝ :=
+         if Src.poleTestSrc E.a p2 = true then (Trig.pi / (1 + 1), absz - E.b)
+         else
+           let p := Trig.sqrt p2
+           let sc := Src.halleySrc E.a E.e2 p absz
+           (Src.halleyLatSrc sc.1 sc.2, Src.halleyHeightSrc E.a E.e2 p absz sc.1 sc.2)
+       (⟨lh.1 * signOf v.z, Src.lonSrc v.x v.y, lh.2⟩ : LLH ℝ)) := by
+  have hs : ∀ p z : ℝ, Src.halleySrc E.a E.e2 p z = halley E p z := by
+    intro p z; src_tie [Src.halleySrc, halley]
+  have hh : ∀ p z s1 cc : ℝ, Src.halleyHeightSrc E.a E.e2 p z s1 cc = halleyHeight E p z s1 cc := by
+    intro p z s1 cc; src_tie [Src.halleyHeightSrc, halleyHeight]
+  have hl : ∀ s1 cc : ℝ, Src.halleyLatSrc s1 cc = Trig.atan (s1 / cc) := by
+    intro s1 cc; src_tie [Src.halleyLatSrc]
+  have hp : ∀ x y : ℝ, Src.p2Src x y = x * x + y * y := by
+    intro x y; src_tie [Src.p2Src]
+  have ho : ∀ x y : ℝ, Src.lonSrc x y = Trig.atan2 y x := by
+    intro x y; src_tie [Src.lonSrc]
+  have ht : ∀ p2 : ℝ, (Src.poleTestSrc E.a p2 = true) ↔ p2 ≤ E.a * E.a * 1e-32 := by
+    intro p2
+    first
+      | (simp only [Src.poleTestSrc, decide_eq_true_eq])
+      | (simp only [Src.poleTestSrc, decide_eq_true_eq]; constructor <;> intro h <;> (first | linarith | nlinarith))
+  simp only [hs, hh, hl, hp, ho]
+  unfold trs2llh latHeightOf
+  by_cases h : v.x * v.x + v.y * v.y ≤ E.a * E.a * 1e-32
+  · simp [h, (ht _).2 h]
+  · have h' : ¬ (Src.poleTestSrc E.a (v.x * v.x + v.y * v.y) = true) := fun c => h ((ht _).1 c)
+    simp [h, h']
+
+end Source
+
 end Midgard.Props.C05
 
 #print axioms Midgard.Props.C05.ellipsoid_params
@@ -396,3 +455,6 @@ end Midgard.Props.C05
 #print axioms Midgard.Props.C05.sites_forward
 #print axioms Midgard.Props.C05.sites_cover_ops
 #print axioms Midgard.Props.C05.ell_flow_midgard
+#print axioms Midgard.Props.C05.source_ellipsoid_parameters
+#print axioms Midgard.Props.C05.source_llh2trs
+#print axioms Midgard.Props.C05.source_trs2llh
